@@ -2,7 +2,7 @@
 from ..rules import folds
 from .common import declare
 
-RULES = ['FOLD-DERIVE', 'AGG-TABLE', 'REDUCER-NAME', 'STATE-PLUMB', 'FOLD-PURE']
+RULES = ['BATCH-PURE', 'INITIAL-NEUTRAL', 'FOLD-DERIVE', 'AGG-TABLE', 'REDUCER-NAME', 'STATE-PLUMB', 'FOLD-PURE']
 FLOORS = {'FOLD-DERIVE': 14, 'AGG-TABLE': 19, 'REDUCER-NAME': 25, 'STATE-PLUMB': 10, 'FOLD-PURE': 50}
 
 META = {
@@ -27,3 +27,8 @@ def run(ctx, R):
     folds.check_reducer_name(ctx, R)
     folds.check_state_plumb(ctx, R)
     folds.check_fold_pure(ctx, R)
+    folds.check_batch_pure(ctx, R)
+    folds.check_initial_neutral(ctx, R)
+
+
+META['level'] += " Also: per-batch functions do not mutate the batch they are given (BATCH-PURE) and initial() performs no arithmetic on the first batch's values (INITIAL-NEUTRAL)."
